@@ -55,7 +55,7 @@ def worker_main(argv):
     variant = chk.variant_for(widx, kind)
     exe = chk.build(variant)
     runner = e3.Runner(exe, os.path.join(SHM_ROOT, "%s-w%d-%d" % (modname, widx, os.getpid())), cpu, ncpu_total, asan=("leak" if chk.leaks and "asan" in variant else ("asan" in variant)))
-    if kind == "F1":
+    if kind in ("F1", "P1"):
         os.sched_setaffinity(0, {cpu})
     known = core.known_for(chk.prop)
     stats = dict(evaluations=0, nontrivial=0, nontrivial_hashes=[], classes={}, outcomes={}, samples=[], known_hits={}, excluded_known=0,
@@ -210,6 +210,7 @@ class E3Check:
     workers_quick = 12
     workers_thorough = 14
     mc_workers = 1
+    p1_workers = 2
     asan_share = 0          # every n-th worker uses the ASan build (0 = none)
     rule = ""
     assumptions = []
@@ -287,6 +288,8 @@ class E3Check:
         procs = []
         for w in range(nworkers):
             kind = "MC" if w >= nworkers - self.mc_workers and nworkers > 2 else "F1"
+            if kind == "F1" and nworkers >= 8 and w < self.p1_workers:
+                kind = "P1"      # one CPU like F1, but time-shared by CFS instead of SCHED_FIFO: preemption at arbitrary instructions, wake-up preemption
             cmd = [sys.executable, "-m", "driver.e3gen", modname, str(w), str(seed), tier, str(budget_s), outdir, kind]
             procs.append(subprocess.Popen(cmd, cwd=VERIF, stdout=open(os.path.join(outdir, "w%d.out" % w), "wb"), stderr=subprocess.STDOUT))
         deadline = time.time() + budget_s + self.shrink_budget_s + 3 * self.case_budget_s + 120
